@@ -1,6 +1,6 @@
 import BoboVerif.Lemmas.TableWF
 import BoboVerif.Lemmas.RemoteJoin
-import BoboVerif.Props.C03
+import BoboVerif.Lemmas.RunChange
 /-!
 `_check_against_runs` on a well-formed table, seen from one run key.
 -/
